@@ -45,4 +45,10 @@ PROPS = {
             {"name": "TestC07", "quick": 1000, "thorough": 25000},
         ],
     },
+    "C13": {
+        "level": "exploration",
+        "tests": [
+            {"name": "TestC13", "quick": 600, "thorough": 12000},
+        ],
+    },
 }
